@@ -32,14 +32,42 @@ func (b *builder) template() *c14tmpl {
 func c14Schemas(thorough bool) (*SPkg, []*Schema) {
 	base, valid := c05Schemas(thorough)
 	b := &builder{base: base, n: 5000}
+	// every operator is applied under three declaration layouts, because validation walks the declarations in
+	// order and a verdict must not depend on it: as written; declarations reversed; and with referrers declared
+	// FIRST (a struct containing S and a message using S, M and E placed before everything else).
 	mut := func(rule, mention, expect string, f func(t *c14tmpl) []*SPkg) {
-		t := b.template()
-		pk := f(t)
-		if pk == nil {
-			pk = []*SPkg{t.p}
+		for layout := 0; layout < 3; layout++ {
+			t := b.template()
+			pk := f(t)
+			if pk == nil {
+				pk = []*SPkg{t.p}
+			}
+			name := "mutant: " + rule
+			if layout > 0 {
+				raw := t.p.RawFile != "" || t.p.RawTail != "" || t.p.NoOpt
+				for _, d := range t.p.Defs {
+					raw = raw || d.Type == "rawheader"
+				}
+				if raw {
+					break // token-level / raw-text operators have one layout
+				}
+			}
+			switch layout {
+			case 1:
+				for i, j := 0, len(t.p.Defs)-1; i < j; i, j = i+1, j-1 {
+					t.p.Defs[i], t.p.Defs[j] = t.p.Defs[j], t.p.Defs[i]
+				}
+				name += " [declarations reversed]"
+			case 2:
+				outer := &SDef{Name: "Outer0", Type: "struct", Pkg: t.p, Fields: []SField{{Name: "inner", Kind: "struct", Ref: t.s}, {Name: "n", Kind: "int64"}}}
+				outerM := &SDef{Name: "OuterM", Type: "message", Pkg: t.p, Fields: []SField{{Name: "s", Tag: 1, Kind: "struct", Ref: t.s},
+					{Name: "m", Tag: 2, Kind: "msg", Ref: t.m}, {Name: "e", Tag: 3, Kind: "enum", Ref: t.e}, {Name: "o", Tag: 4, Kind: "struct", Ref: outer}}}
+				t.p.Defs = append([]*SDef{outer, outerM}, t.p.Defs...)
+				name += " [referrers declared first]"
+			}
+			sc := b.add(name, expect, pk...)
+			sc.Rule, sc.Mention = rule, mention
 		}
-		sc := b.add("mutant: "+rule, expect, pk...)
-		sc.Rule, sc.Mention = rule, mention
 	}
 	// sanity: the unmutated template is valid
 	mut("none (template itself)", "", "ok", func(t *c14tmpl) []*SPkg { return nil })
